@@ -366,6 +366,11 @@ typedef struct functab_t {
 
 #define BADFREC(r) ((r) == NULL || (r)->refcount == 0)
 
+/* Look an id up only if it is of the expected kind: an id of another kind (or a stale one) must
+   never be read as if it were this kind of record */
+#define HAfile_object(id)   ((filerec_t *)(HAatom_group(id) == FIDGROUP ? HAatom_object(id) : NULL))
+#define HAaccess_object(id) ((accrec_t *)(HAatom_group(id) == AIDGROUP ? HAatom_object(id) : NULL))
+
 /* --------------------------- Special Elements --------------------------- */
 /* The HDF tag space is divided as follows based on the 2 highest bits:
    00: Library reserved ordinary tags
